@@ -3,7 +3,7 @@ from oblib import ob
 
 BOUNDS = {
     "quick": "one struct type holding every merge-capable kind (nested struct, pointer to struct, map[string]int8, []int8, [2]int8, any, int8); j1 populates all fields with symbolic digits/letters/keys, j2 mentions exactly one member in one of three ways (value / null / partial or differently shaped value), keys drawn from {a,b,c} so equal and distinct keys both occur: 7 fields x 3 modes, plus element replacement in a []any and in an array of structs (also under UnmarshalArrayFromAnyLength alone). The expected final value is written directly from the documented merge rules.",
-    "thorough": "same (the space of the 21 obligations is explored completely in both tiers).",
+    "thorough": "same (plus: null zeroes each of 13 destination kinds - [3]byte, []byte, [2]int8, pointer, map, slice, string, bool, struct, any, float64, uint8, pointer to pointer - and keeps the other 12 fields; in both tiers); same (the space of the 21 obligations is explored completely in both tiers).",
 }
 ASSUMPTIONS = [
     "reflect.Type/reflect.Value are the engine's go/types-backed environment model (engine/reflect.go): the harness runs the real arshalers on a real Go type and replays natively verbatim",
@@ -19,4 +19,6 @@ def obligations(tier):
     for field in (7, 8):
         for mode in (0, 1):
             L.append(ob("merge/elements/field=%d/mode=%d" % (field, mode), ".", "VerifC14Merge", [field, mode], covers=["second-unmarshal"], max_seconds=600))
+    for via in (False, True):
+        L.append(ob("null/viajson=%d" % via, ".", "VerifC14Null", [via], covers=["checked"], max_seconds=600))
     return L
